@@ -668,18 +668,34 @@ def sync_jobs(
     if os.path.isdir(src.path):
         if not dry_run:
             dst.init()
-        _sync_job_workspaces(
-            src=src,
-            dst=dst,
-            strategy=strategy,
-            exclude=exclude,
-            copy=proxy.copy,
-            copytree=proxy.copytree,
-            recursive=recursive,
-            deep=deep,
-        )
+        if os.path.isdir(dst.path):
+            _sync_job_workspaces(
+                src=src,
+                dst=dst,
+                strategy=strategy,
+                exclude=exclude,
+                copy=proxy.copy,
+                copytree=proxy.copytree,
+                recursive=recursive,
+                deep=deep,
+            )
+        else:
+            # Dry run onto a job that is not initialized yet: there is nothing
+            # to compare with, every entry that is not excluded would be copied.
+            for fn in sorted(os.listdir(src.path)):
+                if any(re.match(p, fn) for p in exclude):
+                    continue
+                fn_src = os.path.join(src.path, fn)
+                fn_dst = os.path.join(dst.path, fn)
+                if os.path.isfile(fn_src):
+                    proxy.copy(fn_src, fn_dst)
+                elif recursive:
+                    proxy.copytree(fn_src, fn_dst)
 
     if doc_sync not in (DocSync.NO_SYNC, DocSync.COPY):
+        if proxy.dry_run and not os.path.isdir(dst.path):
+            # Accessing the document of the destination would initialize it.
+            return
         if src.document != dst.document:
             with proxy.create_doc_backup(dst.document) as dst_proxy:
                 doc_sync(src.document, dst_proxy)
